@@ -1036,6 +1036,11 @@ func (interp *Interpreter) cfg(root *node, sc *scope, importPath, pkgName string
 				if n.typ, err = nodeType(interp, sc, n); err != nil {
 					break
 				}
+				if isInterface(n.typ) && isUntypedConst(c0) && isUntypedConst(c1) {
+					// The destination has an interface type: the operation on untyped constants
+					// is an untyped constant, converted to its default type when it is used.
+					n.typ = c0.typ
+				}
 			}
 			if isShiftNode(n) && isUntypedConst(c0) && !c1.rval.IsValid() {
 				// The shifted constant of a non-constant shift has the type given by the context
